@@ -29,7 +29,7 @@ ASSUMPTIONS = ['python-sat is absent: the solver is the self-checking z3-backed 
 REQUIRED = {'mon:find_circuit.returned': 60, 'mon:find_circuit.no_solution': 20, 'planted': 50, 'brute_force_decided': 30,
             'constraint:fix_both': 10, 'constraint:fix_first': 10, 'constraint:fix_second': 10, 'constraint:fix_type': 10,
             'constraint:forbid_wire': 10, 'need_normalized': 10, 'basis:custom': 5, 'basis:str': 10, 'time_limit_used': 3,
-            'dont_cares': 30, 'continued_after_refused_request': 15}
+            'dont_cares': 30, 'continued_after_refused_request': 15, 'solver_starved': 20}
 
 CUR = {'ctx': None, 'case': None}
 REG = {}      # id(finder) -> record
@@ -243,7 +243,8 @@ def raise_find(st, args, kwargs, exc):
     rec = _rec(self)
     if rec is None or rec['table'] is None or kwargs.get('circuit_db') is not None:
         return
-    if isinstance(exc, SolverTimeOutError):
+    if isinstance(exc, SolverTimeOutError) and not isinstance(exc, NoSolutionError):
+        # "out of time" is no claim - unless a caller's `except NoSolutionError` would take it for one
         ctx.mon('find_circuit', 'timeout')
         return
     if not isinstance(exc, NoSolutionError):
@@ -411,6 +412,7 @@ def gen_case(rng):
             cons.insert(rng.randrange(len(cons) + 1), bad)
             case['refusable_requests'] = True
     case['constraints'] = cons
+    case['starve_solver'] = rng.random() < 0.12
     return case
 
 
@@ -482,6 +484,13 @@ def check_case(case, ctx):
         if case['time_limit']:
             kw['time_limit'] = case['time_limit']
             ctx.count('time_limit_used')
+        import pysat.solvers as _ps
+        old_cap = _ps.CAP_MS
+        if case.get('starve_solver'):
+            # fault injection: the solver is given (almost) no time, so the search ends the way an expired time limit
+            # ends it; whatever the caller is told then must not be "no solution"
+            _ps.CAP_MS = 1
+            ctx.count('solver_starved')
         try:
             finder.find_circuit(**kw)
             outcome = 'returned'
@@ -489,6 +498,8 @@ def check_case(case, ctx):
             outcome = 'no_solution'
         except SolverTimeOutError:
             outcome = 'timeout'
+        finally:
+            _ps.CAP_MS = old_cap
     except Exception as e:
         ctx.unexpected('CircuitFinderSat', e, case)
         outcome = 'error'
